@@ -3,9 +3,11 @@ package props
 import (
 	"bytes"
 	"crypto/sha256"
+	"encoding/json"
 	"fmt"
 	"math/rand/v2"
 	"os"
+	"os/exec"
 	"path/filepath"
 	"regexp"
 	"runtime"
@@ -22,6 +24,7 @@ import (
 	"seehuhn.de/go/sfnt/opentype/gtab/builder"
 
 	"verif/harness/internal/gen/fontgen"
+	"verif/harness/internal/gen/otl"
 	"verif/harness/internal/mon"
 )
 
@@ -229,7 +232,130 @@ func raceKey(block string) string {
 	return strings.Join(frames, " <-> ")
 }
 
+// c16cold is the body of a cold-start child process: no library call has
+// been made in this process before the goroutines start.
+func c16cold(c *mon.Ctx, idx int, out string) {
+	ops := c16ops()
+	kinds := []string{"glyf", "cff", "cid"}
+	var f *sfnt.Font
+	desc := ""
+	corpus := corpusFiles(c)
+	if idx%2 == 1 && len(corpus) > 0 {
+		// a real font read from bytes inside the goroutines' first operation is
+		// not possible (the font must exist first); reading is itself the first use
+		cf := corpus[(idx*5)%len(corpus)]
+		f0, err := sfnt.Read(bytes.NewReader(cf.data))
+		if err != nil {
+			return
+		}
+		f = f0
+		desc = "corpus " + cf.name
+	} else {
+		o := fontgen.Opts{Kind: kinds[idx/2%3], MinGlyphs: 8, MaxGlyphs: 30, Layout: "subset", CMap: "4", Plain: true}
+		f, _ = fontgen.Font(c.Rand("coldfont", idx), o)
+		if f.CreationTime.IsZero() && f.ModificationTime.IsZero() {
+			f.ModificationTime = f.ModificationTime.AddDate(2001, 0, 0)
+		}
+		c16richLayout(c.Rand("coldlayout", idx), f)
+		desc = "generated " + kinds[idx/2%3]
+	}
+	n := 8
+	results := make([][]string, n)
+	var wg sync.WaitGroup
+	gate := make(chan struct{})
+	for g := 0; g < n; g++ {
+		wg.Add(1)
+		go func(g int) {
+			defer wg.Done()
+			r := rand.New(rand.NewPCG(uint64(idx)*100+uint64(g), 5))
+			res := make([]string, len(ops))
+			<-gate
+			for i := range ops {
+				j := (i + g) % len(ops) // every operation is somebody's first
+				if !ops[j].ok(f) {
+					continue
+				}
+				pv, _ := mon.Try(func() { res[j] = ops[j].run(f, r) })
+				if pv != nil {
+					res[j] = fmt.Sprint("PANIC: ", pv)
+				}
+			}
+			results[g] = res
+		}(g)
+	}
+	close(gate)
+	wg.Wait()
+	// sequential reference, computed afterwards
+	var mism []string
+	nOps := 0
+	r0 := rand.New(rand.NewPCG(1, 2))
+	for j, op := range ops {
+		if !op.ok(f) {
+			continue
+		}
+		a := op.run(f, r0)
+		same := true
+		for rep := 0; rep < 4; rep++ {
+			same = same && op.run(f, r0) == a
+		}
+		for g := range results {
+			nOps++
+			if strings.HasPrefix(results[g][j], "PANIC") {
+				mism = append(mism, fmt.Sprintf("concurrent-panic:%s %s", op.name, results[g][j]))
+			} else if same && results[g][j] != a {
+				mism = append(mism, fmt.Sprintf("concurrent-result-differs:%s first concurrent use returned %s, alone %s", op.name, results[g][j], a))
+			}
+		}
+	}
+	b, _ := json.Marshal(map[string]any{"Desc": desc + fmt.Sprintf(", %d goroutines, first use of every operation is concurrent", n), "Ops": nOps, "Mismatches": mism})
+	os.WriteFile(out, b, 0o644)
+}
+
+func firstLine(s string) string {
+	for _, l := range strings.Split(s, "\n") {
+		if strings.HasPrefix(l, "fatal error") || strings.HasPrefix(l, "panic") {
+			return l
+		}
+	}
+	return "?"
+}
+
+// c16richLayout replaces the font's layout tables by generated ones with
+// contextual and chaining lookups (all expressible in the description
+// language, so that Explain works) and GDEF classes.
+func c16richLayout(r *rand.Rand, f *sfnt.Font) {
+	n := f.NumGlyphs()
+	o := otl.Opts{DSL: true, MaxGID: n - 1, NumLookups: 6, Size: otl.Tiny}
+	f.Gsub = otl.Info(r, otl.GSUB, o)
+	f.Gpos = otl.Info(r, otl.GPOS, o)
+	f.Gdef = otl.Gdef(r, n)
+	// chained context rules with backtracks of several glyphs (the description
+	// language prints backtracks in reverse order)
+	bt := func() []glyph.ID {
+		var out []glyph.ID
+		for i := 2 + r.IntN(3); i > 0; i-- {
+			out = append(out, glyph.ID(1+r.IntN(n-1)))
+		}
+		return out
+	}
+	first := glyph.ID(1 + r.IntN(n-1))
+	chain := &gtab.ChainedSeqContext1{Cov: map[glyph.ID]int{first: 0}, Rules: [][]*gtab.ChainedSeqRule{{
+		{Backtrack: bt(), Input: []glyph.ID{glyph.ID(1 + r.IntN(n-1))}, Lookahead: bt(), Actions: []gtab.SeqLookup{{SequenceIndex: 0, LookupListIndex: 0}}},
+		{Backtrack: bt(), Actions: []gtab.SeqLookup{{SequenceIndex: 0, LookupListIndex: 0}}},
+	}}}
+	f.Gsub.LookupList = append(f.Gsub.LookupList, &gtab.LookupTable{Meta: &gtab.LookupMetaInfo{LookupType: 6}, Subtables: []gtab.Subtable{chain}})
+	if len(f.Gsub.FeatureList) > 0 {
+		f.Gsub.FeatureList[0].Lookups = append(f.Gsub.FeatureList[0].Lookups, gtab.LookupIndex(len(f.Gsub.LookupList)-1))
+	}
+}
+
 func runC16(c *mon.Ctx) {
+	if spec := os.Getenv("C16_COLD"); spec != "" {
+		idx := 0
+		fmt.Sscan(spec, &idx)
+		c16cold(c, idx, os.Getenv("C16_COLD_OUT"))
+		return
+	}
 	raceDir := os.Getenv("GORACE")
 	logBase := ""
 	if i := strings.Index(raceDir, "log_path="); i >= 0 {
@@ -270,6 +396,11 @@ func runC16(c *mon.Ctx) {
 				f.ModificationTime = f.ModificationTime.AddDate(2001, 0, 0)
 			}
 			name = fmt.Sprintf("generated-%d-%s(%d glyphs)", cf.font, info.Kind, info.NGlyphs)
+			if cf.font%2 == 1 {
+				c16richLayout(c.Rand("layout", cf.font), f)
+				name += "+contextual-layout"
+				k.Class("font:contextual-layout")
+			}
 		} else {
 			// prefer small and large real fonts alternately
 			idx := (-cf.font - 1) * 3 % len(corpus)
@@ -410,6 +541,60 @@ func runC16(c *mon.Ctx) {
 		}
 	})
 
+	// cold start: the very first use of the library in a fresh process happens
+	// concurrently (lazily initialised package-level state is only exposed then;
+	// the sequential reference of the stratum above would warm it up)
+	nCold := c.N(6, 30)
+	c.Stratum("cold-start", nCold, func(k *mon.Case) {
+		exe, err := os.Executable()
+		if err != nil {
+			return
+		}
+		resFile := filepath.Join(c.OutDir, fmt.Sprintf("cold-%d-%d.json", c.Shard, k.Index))
+		cmd := exec.Command(exe, "-worker", "-prop", "C16", "-tier", c.Tier, "-seed", fmt.Sprint(c.Seed), "-only", "none:0", "-out", c.OutDir, "-nshards", "1", "-shard", fmt.Sprint(900+k.Index))
+		cmd.Env = append(os.Environ(), fmt.Sprintf("C16_COLD=%d", k.Index), "C16_COLD_OUT="+resFile)
+		var stderr bytes.Buffer
+		cmd.Stderr = &stderr
+		runErr := cmd.Run()
+		k.Eval()
+		k.Distinct("cold", k.Index, c.Seed)
+		b, _ := os.ReadFile(resFile)
+		os.Remove(resFile)
+		var res struct {
+			Desc       string
+			Ops        int
+			Mismatches []string
+		}
+		if json.Unmarshal(b, &res) != nil {
+			tail := stderr.String()
+			if len(tail) > 3000 {
+				tail = tail[len(tail)-3000:]
+			}
+			k.Fail("crash", "cold-start:child-died:"+mon.PanicClass(firstLine(tail)), "cold-start child did not finish (%v)\n%s", runErr, tail)
+			return
+		}
+		k.Evals(res.Ops)
+		for _, m := range res.Mismatches {
+			k.Fail("mismatch", "cold-start:"+m[:strings.Index(m+" ", " ")], "%s (%s)", m, res.Desc)
+		}
+		if cmd.Process != nil {
+			logf := filepath.Join(logBase, fmt.Sprintf("race.%d", cmd.Process.Pid))
+			if rb, err := os.ReadFile(logf); err == nil {
+				for _, blk := range mon.RaceBlocks(string(rb)) {
+					key := mon.RaceKey(blk)
+					if len(blk) > 3500 {
+						blk = blk[:3500] + "…"
+					}
+					k.Fail("race", "race:"+key, "data race reported in a cold-start process (%s)\n%s", res.Desc, blk)
+				}
+			}
+		}
+		k.Class("cold-start-process")
+		if k.Index < 1 {
+			k.Sample("cold start: " + res.Desc)
+		}
+	})
+
 	// liveness of the monitor: a known race must be reported
 	c.Stratum("canary", 1, func(k *mon.Case) {
 		head := make([]byte, 54)
@@ -440,6 +625,6 @@ func runC16(c *mon.Ctx) {
 		}
 		k.Distinct("canary")
 	})
-	c.Require("canary-race-reported", "goroutines=2", "goroutines=64", "GOMAXPROCS=2", "GOMAXPROCS=16",
+	c.Require("cold-start-process", "font:contextual-layout", "canary-race-reported", "goroutines=2", "goroutines=64", "GOMAXPROCS=2", "GOMAXPROCS=16",
 		"overlap:Write+Write", "overlap:Write+Subset", "overlap:MakeGlyphNames+Layout", "overlap:Apply(GSUB)+ExplainGsub", "overlap:Subset+Layout")
 }
